@@ -1,4 +1,5 @@
 import Postcard.Props.C10
+import Postcard.Props.EndToEnd
 -- property theorems of C10: every one must depend only on propext / Classical.choice / Quot.sound
 #print axioms Postcard.crc_frame
 #print axioms Postcard.crc_frame_serialize
@@ -14,3 +15,11 @@ import Postcard.Props.C10
 #print axioms Postcard.bitflip_detected
 #print axioms Postcard.payload_burst_rejected
 #print axioms Postcard.payload_bitflip_rejected
+#print axioms Postcard.crc_roundtrip_dec
+#print axioms Postcard.crc_sound_dec
+#print axioms Postcard.checksum_corruption_rejected_dec
+#print axioms Postcard.checksum_corruption_rejected_enc
+#print axioms Postcard.payload_burst_rejected_dec
+#print axioms Postcard.payload_burst_rejected_enc
+#print axioms Postcard.to_slice_crc_then_from_bytes_crc
+#print axioms Postcard.to_hvec_crc_then_from_bytes_crc
